@@ -43,9 +43,11 @@ def _job(arg):
             rng.reset()
             return fn(*a)
         r = core.explore(run, tuple(hargs), timeout_ms=opts.get('timeout_ms', 20000),
-                         time_budget=opts.get('time_budget'), max_paths=opts.get('max_paths'))
+                         time_budget=opts.get('time_budget'), max_paths=opts.get('max_paths'), slice=opts.get('slice'))
         r['harness'] = hname
         r['args'] = list(hargs)
+        if opts.get('slice'):
+            r['slice'] = list(opts['slice'])
         return r
     except BaseException as e:     # noqa
         return {'harness': hname, 'args': list(hargs), 'error': ''.join(traceback.format_exception(e))[-3000:]}
@@ -143,12 +145,18 @@ def main(argv=None):
     if hasattr(mod, 'weight'):
         jobs.sort(key=lambda j: -mod.weight(j))
     opts = dict(getattr(mod, 'OPTS', {}).get(a.tier, {}))
-    if a.tier == 'thorough' and jobs:
+    # a check may ask for heavy shards to be split into m disjoint parts of their path tree (mod.slices(job, tier) -> m): the parts
+    # run in parallel and together are exactly the unsplit exploration
+    parts = []
+    for h, ha in jobs:
+        m_ = int(mod.slices((h, ha), a.tier)) if hasattr(mod, 'slices') else 1
+        parts += [(h, ha, (k, m_) if m_ > 1 else None) for k in range(max(m_, 1))]
+    if a.tier == 'thorough' and parts:
         # bound the wall time of a thorough run (default 25 min of exploration): every shard gets an equal share of it
         wall_target = float(os.environ.get('VERIF_THOROUGH_WALL', '1500'))
-        share = wall_target * a.workers / max(len(jobs), a.workers)
+        share = wall_target * a.workers / max(len(parts), a.workers)
         opts['time_budget'] = max(30.0, min(opts.get('time_budget', share), share))
-    args = [(modname, h, list(ha), opts) for h, ha in jobs]
+    args = [(modname, h, list(ha), dict(opts, slice=sl) if sl else opts) for h, ha, sl in parts]
     results = []
     extra = []          # results of non-SX engines (CrossHair / direct queries) run by the check module
     if args:
@@ -170,7 +178,11 @@ def main(argv=None):
     if errors:
         return 2
     # vacuity guard: a shard in which no path ran to completion proves nothing (unsatisfiable assumptions / every path aborted)
-    vacuous = [r for r in results if r['paths'] == 0 and r.get('n_inconclusive', 0) == 0 and not r.get('truncated')]
+    groups = {}
+    for r in results:
+        groups.setdefault((r['harness'], json.dumps(r['args'], default=str)), []).append(r)
+    vacuous = [g[0] | {'aborted': sum(x['aborted'] for x in g)} for g in groups.values()
+               if sum(x['paths'] for x in g) == 0 and not any(x.get('n_inconclusive', 0) or x.get('truncated') for x in g)]
     for r in vacuous:
         print(f"HARNESS-ERROR property={prop} vacuous shard (no path completed, {r['aborted']} aborted): {r['harness']}{tuple(r['args'])}")
     if vacuous:
